@@ -3,6 +3,7 @@ package main
 import (
 	"context"
 	"encoding/json"
+	"errors"
 	"flag"
 	"fmt"
 	"math/rand"
@@ -734,6 +735,154 @@ func s1WedgeScenario(violation string) *s1Wedge {
 	return line
 }
 
+// ---------------------------------------------------------------- C20 on SECS-I: counters and gauges at quiescent points
+type s1Met struct {
+	T            string     `json:"t"` // "e4met"
+	IsEquip      bool       `json:"is_equip"`
+	Passive      bool       `json:"passive"`
+	M0           txnMetrics `json:"m0"`
+	M1           txnMetrics `json:"m1"` // quiescent, generation 1: every call has returned
+	M2           txnMetrics `json:"m2"` // quiescent, generation 2 Selected
+	SentOK       int        `json:"sends_ok"`       // send calls that returned nil (no-W) or a reply (W)
+	SentT3       int        `json:"sends_t3"`       // W sends that ended in T3
+	PeerGotMsgs  int        `json:"peer_got_msgs"`  // complete messages (E-bit block ACKed) the peer received in generation 1
+	PeerSentMsgs int        `json:"peer_sent_msgs"` // complete well-formed messages the peer sent in generation 1
+	Delivered    int        `json:"delivered"`
+	MinInflight  int        `json:"min_inflight"`
+	MinReconn    int        `json:"min_reconnecting"`
+	Gen2         bool       `json:"gen2_selected"`
+	Fault        string     `json:"fault"`
+}
+
+func s1MetScenario(passive, equip bool) *s1Met {
+	line := &s1Met{T: "e4met", IsEquip: equip, Passive: passive}
+	cut, err := lab.NewS1CUT(lab.S1Options{Passive: passive, Equip: equip, Device: 0x0044, T1: s1T1, T2: s1T2, T4: s1T4, Retry: 2,
+		T3: 150 * time.Millisecond, T5: 30 * time.Millisecond, BackoffInit: 2 * time.Millisecond})
+	if err != nil {
+		line.Fault = err.Error()
+		return line
+	}
+	ses := &s1Session{cut: cut}
+	if !passive {
+		l, err := net.Listen("tcp", "127.0.0.1:0")
+		if err != nil {
+			line.Fault = err.Error()
+			return line
+		}
+		ses.pl = l
+		cut.Net.SetTarget(l.Addr().String())
+	}
+	if err := cut.Open(); err != nil {
+		line.Fault = err.Error()
+		return line
+	}
+	defer ses.close()
+	if err := ses.connect(); err != nil {
+		line.Fault = err.Error()
+		return line
+	}
+	stop := make(chan struct{})
+	var swg sync.WaitGroup
+	swg.Add(1)
+	go func() { // gauges are sampled throughout
+		defer swg.Done()
+		m := cut.Conn.Metrics()
+		for {
+			select {
+			case <-stop:
+				return
+			default:
+			}
+			if v := int(m.DataMsgInflightCount()); v < line.MinInflight {
+				line.MinInflight = v
+			}
+			if v := int(m.Reconnecting()); v < line.MinReconn {
+				line.MinReconn = v
+			}
+			time.Sleep(500 * time.Microsecond)
+		}
+	}()
+	line.M0 = snapMetrics(cut.Conn)
+	// the library sends: two fire-and-wait-free messages, one W answered, one W never answered (T3)
+	type res struct {
+		w   bool
+		err error
+	}
+	results := make(chan res, 4)
+	peerIsEquip := !equip
+	serve := func(reply bool) bool { // receive one complete message; optionally answer it
+		var last []byte
+		for {
+			raw, good, what := ses.peer.RecvBlock(time.Second, peerkit.RecvOpts{})
+			if what != "block" || !good {
+				return false
+			}
+			last = raw
+			if raw[5]&0x80 != 0 {
+				break
+			}
+		}
+		line.PeerGotMsgs++
+		if reply {
+			sb := uint32(last[7])<<24 | uint32(last[8])<<16 | uint32(last[9])<<8 | uint32(last[10])
+			blk := peerkit.E4Block(0x0044, peerIsEquip, int(last[3]&0x7f), int(last[4])+1, false, 1, true, sb, []byte{0x41, 0x02, 'o', 'k'})
+			if ses.peer.SendBlock(blk, peerkit.SendOpts{}) == "ack" {
+				line.PeerSentMsgs++
+			}
+		}
+		return true
+	}
+	for i, w := range []bool{false, false, true, true} {
+		go func(i int, w bool) {
+			_, err := cut.Conn.SendDataMessage(context.Background(), 6, byte(1+2*i), w, secs2.A(fmt.Sprint("m", i)))
+			results <- res{w, err}
+		}(i, w)
+		if !serve(w && i == 2) {
+			line.Fault = "the peer did not receive message " + fmt.Sprint(i)
+			break
+		}
+		r := <-results
+		switch {
+		case r.err == nil:
+			line.SentOK++
+		case errors.Is(r.err, hsms.ErrT3Timeout):
+			line.SentT3++
+		default:
+			line.Fault = "unexpected send result: " + r.err.Error()
+		}
+	}
+	// the peer sends two more complete messages (one of two blocks)
+	if line.Fault == "" {
+		b1 := peerkit.E4Block(0x0044, peerIsEquip, 5, 1, false, 1, false, 0x5001, randBytesN(rand.New(rand.NewSource(1)), 244))
+		b2 := peerkit.E4Block(0x0044, peerIsEquip, 5, 1, false, 2, true, 0x5001, []byte{1, 2, 3})
+		b3 := peerkit.E4Block(0x0044, peerIsEquip, 5, 3, false, 1, true, 0x5002, []byte{0x41, 0x01, 'x'})
+		if ses.peer.SendBlock(b1, peerkit.SendOpts{}) == "ack" && ses.peer.SendBlock(b2, peerkit.SendOpts{}) == "ack" {
+			line.PeerSentMsgs++
+		}
+		if ses.peer.SendBlock(b3, peerkit.SendOpts{}) == "ack" {
+			line.PeerSentMsgs++
+		}
+	}
+	ses.peer.Drain(60 * time.Millisecond) // the library's own messages (S9F9 after the T3 of an equipment) count as sent too
+	for _, y := range ses.peer.TakeYielded() {
+		if y.Good && len(y.Raw) > 6 && y.Raw[5]&0x80 != 0 {
+			line.PeerGotMsgs++
+		}
+	}
+	line.M1 = snapMetrics(cut.Conn)
+	line.Delivered = len(cut.TakeDeliveries())
+	// drop, relink, quiescent again
+	ses.raw.Close()
+	if err := ses.connect(); err == nil {
+		line.Gen2 = true
+		time.Sleep(20 * time.Millisecond)
+	}
+	line.M2 = snapMetrics(cut.Conn)
+	close(stop)
+	swg.Wait()
+	return line
+}
+
 // ---------------------------------------------------------------- C09 on SECS-I: nothing crosses generations
 type s1GenSend struct {
 	Name      string `json:"name"`
@@ -750,13 +899,16 @@ type s1Gen struct {
 	Sends    []s1GenSend `json:"sends"`
 	Stale    int         `json:"stale_blocks"` // blocks of the old generation's messages seen on the new generation's line
 	NextGen  bool        `json:"next_gen_up"`
+	Passive  bool        `json:"passive"`
+	Reconnects int       `json:"reconnects_delta"` // Metrics().Reconnects() after - before the drop (active: one per successful re-dial)
 	FreshOK  bool        `json:"fresh_send_ok"` // a send accepted on the new generation arrives there
+	reconn0  int
 	JitterMs int         `json:"max_jitter_ms"`
 	Fault    string      `json:"fault"`
 }
 
 func s1GenScenario(passive, equip bool, mode string) *s1Gen {
-	line := &s1Gen{T: "e4gen", IsEquip: equip, Mode: mode, Sends: []s1GenSend{}}
+	line := &s1Gen{T: "e4gen", IsEquip: equip, Passive: passive, Mode: mode, Sends: []s1GenSend{}}
 	t0 := time.Now()
 	cut, err := lab.NewS1CUT(lab.S1Options{Passive: passive, Equip: equip, Device: 0x0033, T1: s1T1, T2: s1T2, T4: s1T4, Retry: 6,
 		T3: 5 * time.Second, T5: 30 * time.Millisecond, BackoffInit: 2 * time.Millisecond})
@@ -827,6 +979,7 @@ func s1GenScenario(passive, equip bool, mode string) *s1Gen {
 	if line.Fault != "" {
 		return line
 	}
+	line.reconn0 = int(cut.Conn.Metrics().Reconnects())
 	dropAt := time.Now()
 	if mode == "handler-busy-close" {
 		// the generation is ended by the APPLICATION while the engine is still inside the handler: after the handler
@@ -892,6 +1045,7 @@ func s1GenFinish(ses *s1Session, line *s1Gen, t0 time.Time) *s1Gen {
 		return line
 	}
 	line.NextGen = true
+	line.Reconnects = int(cut.Conn.Metrics().Reconnects()) - line.reconn0
 	end := time.Now().Add(500 * time.Millisecond)
 	for time.Now().Before(end) {
 		raw, good, what := ses.peer.RecvBlock(time.Until(end), peerkit.RecvOpts{})
@@ -1165,6 +1319,11 @@ func runS1(args []string) int {
 	if has("wedge") {
 		for _, v := range []string{"none", "wrong-device", "skipped-block"} {
 			w.Emit(s1WedgeScenario(v))
+		}
+	}
+	if has("met") {
+		for _, cb := range [][2]bool{{false, false}, {true, true}, {false, true}, {true, false}} {
+			w.Emit(s1MetScenario(cb[0], cb[1]))
 		}
 	}
 	if has("gen") {
